@@ -151,6 +151,13 @@ def c11_end_to_end(tier, seed, out):
     out.extra["end_to_end"] = {"loop_runs": out.evaluations - before, "recorded_samples_compared": agg.get("e2e_samples", 0),
                                "frequencies": sorted({int(l.split(" freq=")[1].split(" ")[0]) for l in lines})[:40]}
     out.require("e2e_recorded_samples", agg.get("e2e_samples", 0), 100)
+    # ... and where a Duration option (max_time / min_time) is converted: limits one nanosecond above a round boundary, at values
+    # that binary floating point cannot carry through a multiplication by 10^9
+    blines = loopgen.gen_budget_conversion(tier, seed)
+    before = out.evaluations
+    shards, bagg = loopcheck.run_native("C11", blines, out, checks=[LO.check_c11_budget])
+    out.extra["end_to_end"]["budget_conversion_runs"] = out.evaluations - before
+    out.require("budget_conversion_runs", out.evaluations - before, 30)
 
 
 def c11_precision(exe, tier, seed, out):
